@@ -192,6 +192,23 @@ R = [
      ren('makerandCIJdegreesfixed', ('switch', 'other_edge'), ('t', 'tmp')), True),
     ('R11 renaming combined with a real change in makerandCIJdegreesfixed (`switch <= i`)', 'synth', 'bct/algorithms/reference.py',
      seq(ren('makerandCIJdegreesfixed', ('switch', 'other_edge')), rep('if other_edge < i:', 'if other_edge <= i:')), False),
+    ('R12 loop variable renamed in one loop only (`w` of the second phase of betweenness_wei)', 'betw', 'bct/algorithms/centrality.py',
+     lambda t: (lambda a, b: t[:a] + re.sub(r'\bw\b', 'node', t[a:b]) + t[b:])(
+         t.index('for w in Q[:n - 1]:', t.index('def betweenness_wei(')), t.index('return BC', t.index('def betweenness_wei('))), True),
+    ('R13 inner loop variable renamed to the name of the enclosing loop (`for v in V: … for v in W:` in edge_betweenness_bin)', 'betw',
+     'bct/algorithms/centrality.py',
+     lambda t: (lambda a, b: t[:a] + re.sub(r'\bw\b', 'v', t[a:b]) + t[b:])(
+         t.index('for w in W:', t.index('def edge_betweenness_bin(')), t.index('V, = np.where(np.any(Gu[V, :], axis=0))', t.index('def edge_betweenness_bin('))), False),
+    ('R14 second loop of makerandCIJdegreesfixed renamed except one read, which now sees the last value of the first loop', 'synth',
+     'bct/algorithms/reference.py',
+     lambda t: (lambda a, b: t[:a] + re.sub(r'\bi\b', 'e', t[a:b]).replace('if CIJ[edges[0, e], edges[1, e]]:', 'if CIJ[edges[0, i], edges[1, e]]:') + t[b:])(
+         t.index('for i in range(k):', t.index('def makerandCIJdegreesfixed(')), t.index('CIJ -= np.eye(n)', t.index('def makerandCIJdegreesfixed('))), False),
+    ('R15 pinned routine: loop variable renamed in one loop only (`u` of the aggregation loop of modularity_finetune_und)', 'pinmod',
+     'bct/algorithms/modularity.py',
+     lambda t: (lambda a, b: t[:a] + re.sub(r'\bu\b', 'mod_a', t[a:b]) + t[b:])(
+         t.index('for u in range(m):', t.index('def modularity_finetune_und(')), t.index('def modularity_finetune_und_sign(')), True),
+    ('R16 pinned routine: a real change (`>` for `>=`) next to a renamed local', 'pinrew', 'bct/algorithms/reference.py',
+     seq(ren('randmio_und', ('eff', 'effective')), rep('while att <= max_attempts:', 'while att < max_attempts:')), False),
 ]
 
 
